@@ -71,6 +71,9 @@ FirstErr(rs) == LET E == {i \in DOMAIN rs : IsErr(rs[i])} IN IF E = {} THEN 0 EL
 UnknownPrefix == <<69, 82, 82, 32, 117, 110, 107, 110, 111, 119, 110, 32, 99, 111, 109, 109, 97, 110, 100>>   \* "ERR unknown command"
 IsUnknownCmd(r) == r.t = "error" /\ Len(r.b) >= Len(UnknownPrefix) /\ SubSeq(r.b, 1, Len(UnknownPrefix)) = UnknownPrefix
 ErrClassERR(r) == r.t = "error" /\ Len(r.b) >= 3 /\ SubSeq(r.b, 1, 3) = <<69, 82, 82>>
+(* element order of SMEMBERS / HKEYS / HVALS / HGETALL is that of a hash table: same elements, any order *)
+CountIn(q, x) == Cardinality({i \in DOMAIN q : q[i] = x})
+SameBag(a, b) == a.t = "array" /\ b.t = "array" /\ Len(a.a) = Len(b.a) /\ \A i \in DOMAIN a.a : CountIn(a.a, a.a[i]) = CountIn(b.a, a.a[i])
 PcallReplyOk(rs, got) == IF IsUnknownCmd(rs[Len(rs)]) THEN ErrClassERR(got) ELSE got = Conv(rs[Len(rs)])
 CallReplyOk(rs, got) ==
   LET e == FirstErr(rs) IN
